@@ -16,10 +16,14 @@ def norm_impl(out):
     if out.startswith("reject "):
         v = out[7:].split(" ")[0]
         return "reject " + v if v in SIX else "reject"
+    if out.startswith("!panic"):
+        return "!panic"
     return out
 
 
 def norm_model(out):
+    if out.startswith("!panic"):
+        return "!panic"
     return out
 
 
@@ -48,8 +52,8 @@ def run_programs(rep, progs, tag, props_for_panic=("C02", "C03")):
         m, i = norm_model(mo[k]), norm_impl(io[k])
         rep.count(f"{tag}.impl.{classify(i)}")
         if i.startswith("!panic"):
-            rep.violations.append({"property": "C02" if "exec" in m or m.startswith(("ok", "err")) else "C03",
-                                   "lane": tag, "what": "implementation panics: " + i[:160],
+            rep.violations.append({"property": "C02" if "exec" in mo[k] or m.startswith(("ok", "err")) else "C03",
+                                   "lane": tag, "what": "implementation panics: " + io[k][:160],
                                    "program": sast.program(p), "case": ic[k]})
         if i.startswith("!died") or i.startswith("!timeout"):
             rep.count(f"{tag}.inconclusive")
